@@ -24,7 +24,11 @@ Definition ginit : gstate :=
 
 Inductive gop :=
 | Construct (m : nat) (cls : string)          (* obj = Class(args): constructor routine, then the base-class chain *)
-| Receive (m : nat) (cls : string) (o : nat)  (* a call returned object o as shared_ptr<cls>: wrap_shared_ptr *)
+| Receive (m : nat) (cls : string) (o : nat) (virt : bool)
+      (* a call returned the existing object o as shared_ptr<cls>: wrap_shared_ptr(.., "cls", virt); the
+         generated call site fixes virt (the harness reads it from the routine text) *)
+| Make (m : nat) (cls dyn : string) (virt : bool)
+      (* a call returned a fresh object of dynamic class dyn as shared_ptr<cls> *)
 | Delete (m : nat)                            (* MATLAB destroys the proxy: deconstructor routine per level *)
 | Unload.                                     (* clear mex: _deleteAllObjects *)
 
@@ -71,10 +75,13 @@ Section Gateway.
     | Construct m cls =>
       let o := g_next s in
       attach s m o (chain_of cls) ((o, cls) :: g_objs s) (S o)
-    | Receive m cls o =>
-      (* a virtual class is re-created from the object's dynamic type (RTTI registry, upcastFromVoid) *)
-      let start := if is_virtual cls then match assoc_nat o (g_objs s) with Some d => d | None => cls end else cls in
+    | Receive m cls o virt =>
+      (* with isVirtual the proxy is re-created from the object's dynamic type (RTTI registry, upcastFromVoid) *)
+      let start := if virt then match assoc_nat o (g_objs s) with Some d => d | None => cls end else cls in
       attach s m o (chain_of start) (g_objs s) (g_next s)
+    | Make m cls dyn virt =>
+      let o := g_next s in
+      attach s m o (chain_of (if virt then dyn else cls)) ((o, dyn) :: g_objs s) (S o)
     | Delete m =>
       match assoc_nat m (g_mobjs s) with
       | Some addrs =>
@@ -112,7 +119,8 @@ Section Gateway.
   Definition op_ok (s : gstate) (op : gop) : bool :=
     match op with
     | Construct m _ => andb (negb (mem_nat m (map fst (g_mobjs s)))) (negb (mem_nat m (map fst (g_stale s))))
-    | Receive m _ o => andb (andb (negb (mem_nat m (map fst (g_mobjs s)))) (negb (mem_nat m (map fst (g_stale s))))) (alive s o)
+    | Make m _ _ _ => andb (negb (mem_nat m (map fst (g_mobjs s)))) (negb (mem_nat m (map fst (g_stale s))))
+    | Receive m _ o _ => andb (andb (negb (mem_nat m (map fst (g_mobjs s)))) (negb (mem_nat m (map fst (g_stale s))))) (alive s o)
     | Delete m => mem_nat m (map fst (g_mobjs s))
     | Unload => true
     end.
